@@ -9,6 +9,7 @@
 -/
 import Yld.Model.Parser
 import Yld.Proofs.Grammar
+import Yld.Proofs.GrammarComplete
 import Yld.Proofs.LexFaithful
 namespace Yld.C10
 
@@ -106,5 +107,14 @@ theorem lexer_is_faithful (s : String) (toks : List Tok) (h : lex s = some toks)
 theorem only_white_space_and_comments_are_skipped (cs : List Char) (n : Nat) (h : lexOne cs = some (none, n)) :
     ∃ c rest, cs = c :: rest ∧ (isWs c = true ∨ c = '%') :=
   skipped_is_ws_or_comment cs n h
+
+/-- **The model's recogniser decides the language of the grammar**: a token list is accepted
+    exactly when its kinds derive from `program` in the BNF regenerated from prolog.g4 — in
+    particular every string outside the grammar (unbalanced brackets, missing full stop, stray or
+    repeated separators, anything left over after the last clause) is rejected, and with the fuel
+    `recognise` uses no sentence is rejected for lack of it. -/
+theorem recogniser_decides_the_grammar (toks : List Tok) :
+    recogniseToks (toks.length + 1) toks = true ↔ Derives Generated.grammar (false, "program") (kinds toks) :=
+  recogniseToks_iff toks
 
 end Yld.C10
